@@ -640,22 +640,30 @@ pub fn faults_program(i: u64, sink: &mut ChildSink) {
                 let _ = c.into_compressed();
             }
             5 => {
-                if let Ok(mut c) = ChainCoder::<u8, u16, Faulty<u8>, Faulty<u8>, 4>::from_binary(Faulty::new(data.clone(), mode, k)) {
-                    for _ in 0..8 { let _ = c.decode_symbol(part4); }
-                    for r in raws.iter() { let _ = c.encode_symbol((), Raw::<u8, 4> { c: r.0 & 7, p: 1 + (r.1 & 7) }); }
-                    let _ = c.into_remainders();
-                }
-                if let Ok(mut c) = ChainCoder::<u8, u16, Faulty<u8>, Faulty<u8>, 4>::from_compressed(Faulty::new(data.clone(), mode, k)) {
-                    for _ in 0..8 { let _ = c.decode_symbol(part4); }
-                    let _ = c.into_remainders();
+                // the fault schedule applies to the backend handed in, to the Default-constructed second backend, or to both
+                let big = Part::<u8, 4> { c: 1, p: 13 };
+                for (first, second) in [((mode, k), (3u8, 0usize)), ((3, 0), (mode, k)), ((mode, k), (mode, k))] {
+                    DEFAULT_FAULT.with(|d| d.set(second));
+                    if let Ok(mut c) = ChainCoder::<u8, u16, Faulty<u8>, Faulty<u8>, 4>::from_binary(Faulty::new(data.clone(), first.0, first.1)) {
+                        for j in 0..10 { let _ = c.decode_symbol(part4); if j % 2 == 0 { let _ = c.decode_symbol(big); } }
+                        for r in raws.iter() { let _ = c.encode_symbol((), Raw::<u8, 4> { c: r.0 & 7, p: 1 + (r.1 & 7) }); }
+                        let _ = c.into_remainders();
+                    }
+                    if let Ok(mut c) = ChainCoder::<u8, u16, Faulty<u8>, Faulty<u8>, 4>::from_compressed(Faulty::new(data.clone(), first.0, first.1)) {
+                        for _ in 0..8 { let _ = c.decode_symbol(part4); let _ = c.decode_symbol(big); }
+                        let _ = c.into_remainders();
+                    }
                 }
             }
             6 => {
-                if let Ok(mut c) = ChainCoder::<u8, u16, Faulty<u8>, Faulty<u8>, 4>::from_remainders(Faulty::new(data.clone(), mode, k)) {
-                    for r in raws.iter().chain(raws.iter()) { let _ = c.encode_symbol((), Raw::<u8, 4> { c: r.0 & 7, p: 1 + (r.1 & 7) }); }
-                    for _ in 0..3 { let _ = c.decode_symbol(part4); }
-                    let _ = c.clone().into_compressed().map(|_| ());
-                    let _ = c.into_binary().map(|_| ());
+                for (first, second) in [((mode, k), (3u8, 0usize)), ((3, 0), (mode, k)), ((mode, k), (mode, k))] {
+                    DEFAULT_FAULT.with(|d| d.set(second));
+                    if let Ok(mut c) = ChainCoder::<u8, u16, Faulty<u8>, Faulty<u8>, 4>::from_remainders(Faulty::new(data.clone(), first.0, first.1)) {
+                        for r in raws.iter().chain(raws.iter()) { let _ = c.encode_symbol((), Raw::<u8, 4> { c: r.0 & 7, p: 1 + (r.1 & 7) }); }
+                        for _ in 0..6 { let _ = c.decode_symbol(part4); }
+                        let _ = c.clone().into_compressed().map(|_| ());
+                        let _ = c.into_binary().map(|_| ());
+                    }
                 }
             }
             7 => {
